@@ -32,6 +32,10 @@ func tryInitDefaults(val reflect.Value) reflect.Value {
 	t := val.Type()
 
 	var initializer Initializer
+	if t.Kind() == reflect.Interface && val.IsNil() {
+		// an interface that holds nothing has nothing to initialize
+		return val
+	}
 	if t.Implements(iInitializer) {
 		initializer = val.Interface().(Initializer)
 		initializer.InitDefaults()
